@@ -3,11 +3,12 @@
 # verifsimsync, harness compiled against it with the race detector.  The scratch copy is removed again.
 set -e
 export GOFLAGS=-mod=mod GOPROXY=off GOSUMDB=off GOTOOLCHAIN=local
-cd /verif
+V="$(cd "$(dirname "$0")/.." && pwd)"
+cd "$V"
 mkdir -p build
 S=$(mktemp -d /tmp/verif-e4-XXXXXX)
 trap 'rm -rf "$S"' EXIT
-go run ./interleave/rewrite /repo /verif/interleave/simsync "$S/repo" >/dev/null
+go run ./interleave/rewrite /repo "$V/interleave/simsync" "$S/repo" >/dev/null
 # an alternative go.mod: same requirements, the library replaced by the rewritten copy
 sed "s#=> /repo#=> $S/repo#" go.mod > "$S/go.mod"
 cp go.sum "$S/go.sum"
